@@ -385,6 +385,12 @@ def witnesses_c05(tier, seed):
     # the same expressions handed through a macro argument (rendered by Display, pasted into the body, parsed again): the value the
     # caller wrote must arrive, whatever stands next to the parameter in the body
     via = [w for w in ws[:(300 if tier == 'quick' else 3000)] if w[1] is not None and abs(w[1]) < (1 << 61)]
+    for op in ('*', '/', '%', '+', '-', '<<', '>>', '<', '<=', '>', '>=', '==', '!=', '&', '^', '|', '&&', '||'):
+        for x, y in ((5, 5), (5, 4), (4, 5), (0, 0), (1, 0), (0, 1), (6, 3)):
+            try:
+                via.append(('%d %s %d' % (x, op, y), expr_sem.binop(op, x, y)))
+            except expr_sem.Fail:
+                pass
     for src, e in via:
         jobs.append('build\n.macro m\n.dq @0\n.dq 1-@0\n.dq @0*2\n.endm\n m %s\n' % src)
     # 'division or remainder by zero and arithmetic overflow fail the build instead of producing a value' -- in EVERY place an expression
@@ -887,6 +893,11 @@ def witnesses_c10(tier, seed):
         ('undefined_in_function_argument', '.db low(nosuch), 0\n', 'error'),
         ('undefined_times_zero', '.db 0 * nosuch, 0\n', 'error'),
         ('undefined_behind_equ', '.equ a = nosuch + 1\n.db a, 0\n', 'error'),
+        # a .set variable holds the VALUE its expression had at the line of the .set (other .set variables, pc), not the expression
+        ('set_is_evaluated_at_its_line', '.set base = 2\n.set off = base + 1\n.set base = 10\n.db off, 0\n', dict(code='0300')),
+        ('set_pc_is_the_line_of_the_set', ' nop\n.set top = pc\n nop\n brne top\n rjmp top\n', dict(code='00000000f1f7fdcf')),
+        # an .equ written over a .set variable means the same wherever it stands: alone or inside a larger expression, first use or later
+        ('equ_over_set_same_value_alone_and_in_expression', '.set w = 2\n.equ t = w*2\n ldi r16, t\n.set w = 5\n ldi r17, t\n ldi r18, t+0\n', dict(code='04e01ae02ae0')),
         ('undef_mixed_case_then_redefine', '.def Tmp = r16\n.undef TMP\n.def tmp = r17\n mov tmp, r0\n', dict(code='102d')),
         ('set_sees_latest_preceding', '.set k = 5\n.db k, 0\n.set k = k * 2\n.db k, 0\n.set K = k + 1\n.db k, 0\n', dict(code='05000a000b00')),
     ]
@@ -953,7 +964,16 @@ def witnesses_c08(tier, seed):
              ('ifndef_on_macro_argument', '.define UseFast\n.macro pick\n.ifndef @0\n ldi r16, 1\n.else\n ldi r16, 2\n.endif\n.endm\n pick UseFast\n', '02e0'),
              ('ifdef_on_macro_argument_other_case_is_undefined', '.define use_fast\n.macro pick\n.ifdef @0\n ldi r16, 1\n.else\n ldi r16, 2\n.endif\n.endm\n pick USE_FAST\n', '02e0'),
              ('if_on_macro_argument_expression', '.macro pick\n.if @0 > 6\n ldi r16, 1\n.else\n ldi r16, 2\n.endif\n.endm\n pick 3+4\n pick 2*3\n', '01e002e0'),
-             ('ifdef_sees_only_defines', '.equ NAME = 4\n.ifdef NAME\n ldi r16, 1\n.else\n ldi r16, 2\n.endif\n.ifndef NAME\n ldi r17, 1\n.endif\n', '02e011e0')]
+             ('ifdef_sees_only_defines', '.equ NAME = 4\n.ifdef NAME\n ldi r16, 1\n.else\n ldi r16, 2\n.endif\n.ifndef NAME\n ldi r17, 1\n.endif\n', '02e011e0'),
+             # every spelling of a conditional directive is seen while skipping too: the preprocessor spelling of the part files, a label in
+             # front of the directive, indentation
+             ('hash_spelled_chain', '#ifdef FEATURE\n ldi r16, 1\n#else\n ldi r16, 2\n#endif\n ldi r17, 3\n', '02e013e0'),
+             ('hash_spelled_nested_in_unselected', '#if 0\n#ifdef X\n ldi r16, 1\n#else\n ldi r16, 4\n#endif\n#elif 1\n ldi r16, 2\n#else\n ldi r16, 5\n#endif\n ldi r17, 3\n', '02e013e0'),
+             ('labelled_nested_if_in_unselected', '.if 0\n ldi r16, 1\ninner: .if 1\n ldi r16, 4\n .endif\n ldi r16, 5\n.else\n ldi r16, 2\n.endif\n ldi r17, 3\n', '02e013e0'),
+             ('labelled_endif_in_unselected', '.if 0\n ldi r16, 1\n.if 1\n ldi r16, 4\ndone: .endif\n ldi r16, 5\n.else\n ldi r16, 2\n.endif\n ldi r17, 3\n', '02e013e0'),
+             ('indented_directives_in_unselected', '.if 0\n\t .if 1\n ldi r16, 4\n\t .endif\n ldi r16, 5\n .else\n ldi r16, 2\n.endif\n ldi r17, 3\n', '02e013e0'),
+             # a comparison handed through a macro argument, at its boundary (the operator itself is rendered and parsed again)
+             ('comparisons_at_boundary_through_macro', '.macro pick\n.if @0\n ldi r16, 1\n.else\n ldi r16, 2\n.endif\n.endm\n.equ N = 4\n pick N >= 4\n pick N <= 4\n pick N > 4\n pick N < 4\n pick N == 4\n pick N != 4\n', '01e001e002e002e001e002e0')]
     res2 = replay.run_jobs(['build\n' + f[1] for f in fixed])
     for (name, src, want), r in zip(fixed, res2):
         out.append(WitnessResult('select:' + name, 'build\n' + src, r.get('status') == 'ok' and r.get('code') == want, dict((k, r.get(k)) for k in ('status', 'code', 'err')), want, 'cond/'))
@@ -970,7 +990,7 @@ PROPS['C08'] = dict(
                'unselected lines deleted" is a meta-theorem over the fold and is only exercised by generated witnesses',
     technique='Verus loop invariants on the extracted skip/parse_iter against recursive nesting and driver oracles + contract on Directive::parse arms',
     verus=['cond', 'dir', 'expr', 'ctxu'],
-    depends_on=['C05', 'C10'],   # 'the first branch whose condition holds': the value of the condition (C05) and the lookup of .define / .equ names in it (C10) are presupposed
+    depends_on=['C05', 'C10', 'C09'],   # 'the first branch whose condition holds': the value of the condition (C05) and the lookup of .define / .equ names in it (C10) are presupposed; a condition written on a macro parameter gets its text through the expansion (C09)
     witnesses=witnesses_c08,
     functions=['parser::skip', 'parser::parse_iter', 'directive::Directive::parse (If/ElIf/IfDef/IfNDef/Else/Endif/Define arms)'],
     explanation='branch_end/block_end/skip_ret/skip_pos and drive/line_step in contracts/cond.vspec are the oracle; dir.vspec carries the arms.',
@@ -1071,7 +1091,7 @@ PROPS['C15'] = dict(
                'inside pass 0 (macro expansion) and inside an included file are not under contract',
     technique='Verus postconditions on error locations over the extracted passes / Directive::parse / parse_iter (rule R1 keeps the location)',
     verus=['pass1', 'pass2', 'dir', 'cond', 'data', 'encv', 'expr', 'pass0', 'ctxu', 'mexp'],
-    depends_on=['C10', 'C04'],   # 'an undefined symbol, a duplicate label' (C10) and 'an operand of the wrong kind or out of range' (C04) fail the build: presupposed
+    depends_on=['C10', 'C04', 'C08'],   # 'an undefined symbol, a duplicate label' (C10) and 'an operand of the wrong kind or out of range' (C04) fail the build: presupposed; `.error` / `.message` take effect exactly 'wherever they are assembled', i.e. in the selected branch (C08)
     whole_units=['expr'],     # an expression that must fail but evaluates hides the fault: every clause of EXPR counts here
     witnesses=witnesses_c15,
     functions=['pass_1_internal', 'pass_2_internal', 'build_pass_2', 'Directive::parse', 'parse_iter', 'process / GetData (no location)'],
